@@ -53,6 +53,8 @@ def compare_parse(mode, clsid, payload, parsebf, label=None, msg=None):
         if not missing and not extra:
             i = next(i for i in range(len(want)) if names[i] != want[i])
             out.append((f"attribute_order|{label}|{pb}|{L_base(want[i])}", f"position {i}: got {names[i]} want {want[i]}"))
+    for nm in sorted(dup):
+        out.append((f"two_defined_fields_exposed_under_one_name|{label}|{pb}|{L_base(nm)}", f"{nm} names more than one field of the definition; only one value can be exposed"))
     n = 0
     for nm, pred in exp:
         if nm not in names:
